@@ -292,6 +292,16 @@ func checkC05(p *Program, r *Report) {
 		r.Add("C05.valid", fname, "both a private and a public accepting arm exist", fn.Pos(), false, fmt.Sprintf("private arms %d, public arms %d", nPriv, nPub))
 	}
 	canonicalInput(p, r, "C05.canon", []*ssa.Function{fn})
+	// round 5: serialising a key writes nothing the key (or any other key sharing its version bytes) can see
+	// (C05-agent5-m1: String() assembled in bytes.NewBuffer(k.version) filled the spare capacity of the parsed
+	// payload the version slice points into), and every minimal-length big-integer encoding that reaches the
+	// serialisation is padded (C05-agent5-m2: hand-compressed public key with an unpadded X coordinate)
+	keyPureRule(p, r, "C05.pure", []string{"(*ExtendedKey).String", "NewKeyFromString"}, "serialising / parsing writes nothing reachable from the key or the arguments")
+	r.Floor("C05.pure", 2)
+	if padObligations(p, r, "C05.pad", pkgFuncs(p, "hdkeychain")) == 0 {
+		r.Unresolved("C05.pad", "a (*big.Int).Bytes() source in hdkeychain")
+	}
+	r.Floor("C05.pad", 1)
 	if n := rejectionVocabulary(p, r, "C05.accepts", fn, []string{`len\(call .*base58\.Decode\)`, `call bytes\.Equal`, `call .*big\.Int\)\.Cmp`, `call .*big\.Int\)\.Sign`,
 		`call .*bchec\.ParsePubKey#1`, `call .*base58\.Decode\[45\]`}, "the decoded length, the checksum, the key-type byte and the validity of the key material", approvedChecksumConds(p, fn)); n == 0 {
 		r.Unresolved("C05.accepts", "rejection tests of NewKeyFromString")
